@@ -130,9 +130,9 @@ FIXED = {
  "fs:complete-missing-part-internal-error": "0096ef4", "fs:failed-complete-consumes-upload": "0096ef4",
  "fs:unknown-upload-code": "4609ab3", "fs:list-parts-unknown-upload": "4609ab3",
  "fs:part-number-not-validated": "205d9a8",
- "fs:part-copy-range-unchecked": "814bd03",
+ "fs:part-copy-range-unchecked": "18203b6",
  "fs:stale-checksum-after-complete": "47e9b00", "fs:stale-metadata-after-complete": "47e9b00",
- "fs:complete-into-missing-bucket": "9bdb75f",
+ "fs:complete-into-missing-bucket": "b29f222",
  "fs:stale-checksum-after-copy": "8faafe7", "fs:stale-metadata-after-copy": "8faafe7",
  "fs:delete-objects-duplicate-key": "c55c267", "fs:delete-objects-omits-missing-keys": "c55c267",
  "fs:list-parts-unordered": "764f144",
